@@ -24,6 +24,11 @@ def t3(rep, tier, seed):
         open(good, "wb").write(csv(1203))
         small = os.path.join(base, "small.csv")
         open(small, "wb").write(csv(3))
+        bigf = os.path.join(base, "big.csv")
+        with open(bigf, "w") as f:
+            f.write("a,b\n")
+            for i in range(60000):
+                f.write(f"{i},{'x' * 40}\n")
         cases = []   # (kind, argv, stdin, stdout_path)
         # 1. missing / unreadable inputs, in each position of the file list
         missing = os.path.join(base, "nosuch.csv")
@@ -82,6 +87,10 @@ def t3(rep, tier, seed):
         for stmt in ['tee > "/dev/full", $*', 'print > "/dev/full", $a', 'emit > "/dev/full", $*', 'dump > "/dev/full", $*', 'printn > "/dev/full", $a',
                      'emitf > "/dev/full", @x', 'tee > "' + nodir + '/".$a, $*', 'print | "exit 3", $a', 'tee | "false", $*']:
             pre = "@x = 1; " if "emitf" in stmt else ""
+            if "|" in stmt:
+                # a write to a pipe fails only once the command has gone AND the pipe buffer is exceeded
+                cases.append(("failing-pipe-target", ["--icsv", "--ojson", "put", "-q", pre + stmt, bigf], None, None))
+                continue
             cases.append(("unwritable-redirect", ["--icsv", "--ojson", "put", "-q", pre + stmt, good], None, None))
             cases.append(("unwritable-redirect", ["--icsv", "--ojson", "put", "-q", pre + stmt, small], None, None))
         if tier == "quick":
